@@ -13,12 +13,12 @@ pub mod clock {
         nanos: u32,
         pad: u32,
     }
-    pub static mut NOW_S: u64 = 0;
+    pub static mut NOW_S: crate::verif_env::Ghost<u64> = crate::verif_env::ghost(8, 0);
     pub const EPOCH: i64 = 1_000_000;
     pub fn now() -> Instant {
         unsafe {
             std::mem::transmute::<Raw, Instant>(Raw {
-                secs: EPOCH + NOW_S as i64,
+                secs: EPOCH + NOW_S.v as i64,
                 nanos: 0,
                 pad: 0,
             })
@@ -26,18 +26,18 @@ pub mod clock {
     }
     #[cfg(not(verif_replay))]
     pub fn set(s: u64) {
-        unsafe { NOW_S = s }
+        unsafe { NOW_S.v = s }
     }
     #[cfg(verif_replay)]
     pub fn set(s: u64) {
         unsafe {
-            NOW_S = s;
+            NOW_S.v = s;
             let f: extern "C" fn(i64) = std::mem::transmute(super::shim::sym(b"verif_set_clock\0"));
             f(s as i64);
         }
     }
     pub fn get() -> u64 {
-        unsafe { NOW_S }
+        unsafe { NOW_S.v }
     }
 }
 
@@ -57,13 +57,13 @@ pub mod shim {
 
 /// Wall clock (µs) for `signed_announce::system_time`.
 pub mod wall {
-    pub static mut NOW_US: u64 = 0;
+    pub static mut NOW_US: crate::verif_env::Ghost<u64> = crate::verif_env::ghost(9, 0);
     pub fn system_time() -> u64 {
-        unsafe { NOW_US }
+        unsafe { NOW_US.v }
     }
     pub fn set(us: u64) {
         unsafe {
-            NOW_US = us;
+            NOW_US.v = us;
             #[cfg(verif_replay)]
             {
                 let f: extern "C" fn(u64) = std::mem::transmute(super::shim::sym(b"verif_set_wall\0"));
@@ -76,17 +76,17 @@ pub mod wall {
 pub mod rnd {
     //! Random bytes.  All nondeterminism is drawn in the harness body (`preload`), never inside a
     //! stub, so that the order of `kani::any()` calls is the same under Kani and in native replay.
-    pub static mut BUF: [u8; 64] = [0; 64];
-    pub static mut LEN: usize = 0;
-    pub static mut POS: usize = 0;
+    pub static mut BUF: crate::verif_env::Ghost<[u8; 64]> = crate::verif_env::ghost(10, [0; 64]);
+    pub static mut LEN: crate::verif_env::Ghost<usize> = crate::verif_env::ghost(11, 0);
+    pub static mut POS: crate::verif_env::Ghost<usize> = crate::verif_env::ghost(12, 0);
     /// Queue `bytes` as the next values returned by `getrandom::fill`.
     /// (slice copies, no loops: the harness-wide unwind bound does not have to cover them)
     pub fn preload(bytes: &[u8]) {
         unsafe {
             let n = bytes.len();
-            if LEN + n <= 64 {
-                BUF[LEN..LEN + n].copy_from_slice(bytes);
-                LEN += n;
+            if LEN.v + n <= 64 {
+                BUF.v[LEN.v..LEN.v + n].copy_from_slice(bytes);
+                LEN.v += n;
             } else {
                 super::cut();
             }
@@ -101,9 +101,9 @@ pub mod rnd {
     pub fn fill(dest: &mut [u8]) -> Result<(), getrandom::Error> {
         unsafe {
             let n = dest.len();
-            if POS + n <= LEN {
-                dest.copy_from_slice(&BUF[POS..POS + n]);
-                POS += n;
+            if POS.v + n <= LEN.v {
+                dest.copy_from_slice(&BUF.v[POS.v..POS.v + n]);
+                POS.v += n;
             } else {
                 super::cut();
             }
@@ -122,12 +122,12 @@ pub fn fmt_stub(_: std::fmt::Arguments<'_>) -> String {
 }
 
 /// Set by every flagged cut; harnesses assert it is false at the end (else INCONCLUSIVE).
-pub static mut CUT_REACHED: bool = false;
+pub static mut CUT_REACHED: crate::verif_env::Ghost<bool> = crate::verif_env::ghost(13, false);
 pub fn cut() {
-    unsafe { CUT_REACHED = true }
+    unsafe { CUT_REACHED.v = true }
 }
 pub fn cut_reached() -> bool {
-    unsafe { CUT_REACHED }
+    unsafe { CUT_REACHED.v }
 }
 
 /// Independent bitwise CRC32C (Castagnoli, reflected, init/xorout 0xFFFFFFFF).
@@ -165,62 +165,62 @@ pub mod oracle {
     ];
     pub const MAXQ: usize = 3;
     pub const MAXMSG: usize = 64;
-    pub static mut VERDICT: [bool; MAXQ] = [false; MAXQ];
-    pub static mut ASKED: usize = 0;
-    pub static mut KEY: [[u8; 32]; MAXQ] = [[0; 32]; MAXQ];
-    pub static mut SIG: [[u8; 64]; MAXQ] = [[0; 64]; MAXQ];
-    pub static mut MSG: [[u8; MAXMSG]; MAXQ] = [[0; MAXMSG]; MAXQ];
-    pub static mut MSG_LEN: [usize; MAXQ] = [0; MAXQ];
+    pub static mut VERDICT: crate::verif_env::Ghost<[bool; MAXQ]> = crate::verif_env::ghost(14, [false; MAXQ]);
+    pub static mut ASKED: crate::verif_env::Ghost<usize> = crate::verif_env::ghost(15, 0);
+    pub static mut KEY: crate::verif_env::Ghost<[[u8; 32]; MAXQ]> = crate::verif_env::ghost(16, [[0; 32]; MAXQ]);
+    pub static mut SIG: crate::verif_env::Ghost<[[u8; 64]; MAXQ]> = crate::verif_env::ghost(17, [[0; 64]; MAXQ]);
+    pub static mut MSG: crate::verif_env::Ghost<[[u8; MAXMSG]; MAXQ]> = crate::verif_env::ghost(18, [[0; MAXMSG]; MAXQ]);
+    pub static mut MSG_LEN: crate::verif_env::Ghost<[usize; MAXQ]> = crate::verif_env::ghost(19, [0; MAXQ]);
 
     /// fix the verdict of the i-th query
     pub fn arm(i: usize, verdict: bool) {
-        unsafe { VERDICT[i] = verdict }
+        unsafe { VERDICT.v[i] = verdict }
     }
     pub fn asked() -> usize {
-        unsafe { ASKED }
+        unsafe { ASKED.v }
     }
     pub fn verify_stub(k: &VerifyingKey, msg: &[u8], sig: &Signature) -> Result<(), SignatureError> {
         unsafe {
-            let i = ASKED;
+            let i = ASKED.v;
             if i >= MAXQ || msg.len() > MAXMSG {
                 super::cut();
                 return Err(SignatureError::new());
             }
-            KEY[i] = *k.as_bytes();
-            SIG[i] = sig.to_bytes();
+            KEY.v[i] = *k.as_bytes();
+            SIG.v[i] = sig.to_bytes();
             let mut j = 0;
             while j < msg.len() {
-                MSG[i][j] = msg[j];
+                MSG.v[i][j] = msg[j];
                 j += 1;
             }
-            MSG_LEN[i] = msg.len();
-            ASKED += 1;
-            if VERDICT[i] { Ok(()) } else { Err(SignatureError::new()) }
+            MSG_LEN.v[i] = msg.len();
+            ASKED.v += 1;
+            if VERDICT.v[i] { Ok(()) } else { Err(SignatureError::new()) }
         }
     }
     /// true iff query i was about exactly (key, msg, sig)
     pub fn was_about(i: usize, key: &[u8; 32], msg: &[u8], sig: &[u8; 64]) -> bool {
         unsafe {
-            if i >= ASKED || MSG_LEN[i] != msg.len() {
+            if i >= ASKED.v || MSG_LEN.v[i] != msg.len() {
                 return false;
             }
             let mut j = 0;
             while j < msg.len() {
-                if MSG[i][j] != msg[j] {
+                if MSG.v[i][j] != msg[j] {
                     return false;
                 }
                 j += 1;
             }
             let mut j = 0;
             while j < 32 {
-                if KEY[i][j] != key[j] {
+                if KEY.v[i][j] != key[j] {
                     return false;
                 }
                 j += 1;
             }
             let mut j = 0;
             while j < 64 {
-                if SIG[i][j] != sig[j] {
+                if SIG.v[i][j] != sig[j] {
                     return false;
                 }
                 j += 1;
@@ -240,7 +240,7 @@ pub mod oracle {
         use ed25519_dalek::Signer;
         let sk = ed25519_dalek::SigningKey::from_bytes(&[seed; 32]);
         let mut s: [u8; 64] = sk.sign(msg).into();
-        if !unsafe { VERDICT[i] } {
+        if !unsafe { VERDICT.v[i] } {
             s[5] ^= 0x40;
         }
         s
@@ -253,13 +253,13 @@ pub mod oracle {
 /// <= 4 bytes so this is exact.
 pub mod uf {
     pub const SLOTS: usize = 3;
-    pub static mut SET: [bool; SLOTS] = [false; SLOTS];
-    pub static mut IN_LEN: [usize; SLOTS] = [0; SLOTS];
-    pub static mut IN: [[u8; 4]; SLOTS] = [[0; 4]; SLOTS];
-    pub static mut OUT: [[u8; 20]; SLOTS] = [[0; 20]; SLOTS];
+    pub static mut SET: crate::verif_env::Ghost<[bool; SLOTS]> = crate::verif_env::ghost(20, [false; SLOTS]);
+    pub static mut IN_LEN: crate::verif_env::Ghost<[usize; SLOTS]> = crate::verif_env::ghost(21, [0; SLOTS]);
+    pub static mut IN: crate::verif_env::Ghost<[[u8; 4]; SLOTS]> = crate::verif_env::ghost(22, [[0; 4]; SLOTS]);
+    pub static mut OUT: crate::verif_env::Ghost<[[u8; 20]; SLOTS]> = crate::verif_env::ghost(23, [[0; 20]; SLOTS]);
     /// pre-draw the digests (harness body)
     pub fn arm(digests: [[u8; 20]; SLOTS]) {
-        unsafe { OUT = digests }
+        unsafe { OUT.v = digests }
     }
     pub fn h(v: &[u8]) -> [u8; 20] {
         if v.len() > 4 {
@@ -277,18 +277,18 @@ pub mod uf {
         unsafe {
             let mut i = 0;
             while i < SLOTS {
-                if SET[i] && IN_LEN[i] == v.len() && IN[i] == key {
-                    return OUT[i];
+                if SET.v[i] && IN_LEN.v[i] == v.len() && IN.v[i] == key {
+                    return OUT.v[i];
                 }
                 i += 1;
             }
             let mut i = 0;
             while i < SLOTS {
-                if !SET[i] {
-                    SET[i] = true;
-                    IN_LEN[i] = v.len();
-                    IN[i] = key;
-                    return OUT[i];
+                if !SET.v[i] {
+                    SET.v[i] = true;
+                    IN_LEN.v[i] = v.len();
+                    IN.v[i] = key;
+                    return OUT.v[i];
                 }
                 i += 1;
             }
@@ -306,30 +306,30 @@ pub mod uf {
 /// over-approximation).  C19.O3 / C19.O4 / C11.O1 bind the real function to the BEP42 reference.
 pub mod ufp {
     pub const SLOTS: usize = 4;
-    pub static mut SET: [bool; SLOTS] = [false; SLOTS];
-    pub static mut IN_IP: [u32; SLOTS] = [0; SLOTS];
-    pub static mut IN_R: [u8; SLOTS] = [0; SLOTS];
-    pub static mut OUT: [[u8; 3]; SLOTS] = [[0; 3]; SLOTS];
+    pub static mut SET: crate::verif_env::Ghost<[bool; SLOTS]> = crate::verif_env::ghost(24, [false; SLOTS]);
+    pub static mut IN_IP: crate::verif_env::Ghost<[u32; SLOTS]> = crate::verif_env::ghost(25, [0; SLOTS]);
+    pub static mut IN_R: crate::verif_env::Ghost<[u8; SLOTS]> = crate::verif_env::ghost(26, [0; SLOTS]);
+    pub static mut OUT: crate::verif_env::Ghost<[[u8; 3]; SLOTS]> = crate::verif_env::ghost(27, [[0; 3]; SLOTS]);
     pub fn arm(outs: [[u8; 3]; SLOTS]) {
-        unsafe { OUT = outs }
+        unsafe { OUT.v = outs }
     }
     pub fn prefix(ip: std::net::Ipv4Addr, r: u8) -> [u8; 3] {
         let ipn = u32::from_be_bytes(ip.octets());
         unsafe {
             let mut i = 0;
             while i < SLOTS {
-                if SET[i] && IN_IP[i] == ipn && IN_R[i] == r {
-                    return OUT[i];
+                if SET.v[i] && IN_IP.v[i] == ipn && IN_R.v[i] == r {
+                    return OUT.v[i];
                 }
                 i += 1;
             }
             let mut i = 0;
             while i < SLOTS {
-                if !SET[i] {
-                    SET[i] = true;
-                    IN_IP[i] = ipn;
-                    IN_R[i] = r;
-                    return OUT[i];
+                if !SET.v[i] {
+                    SET.v[i] = true;
+                    IN_IP.v[i] = ipn;
+                    IN_R.v[i] = r;
+                    return OUT.v[i];
                 }
                 i += 1;
             }
@@ -337,4 +337,18 @@ pub mod ufp {
         super::cut();
         [0; 3]
     }
+}
+
+/// Ghost-state cell.  Kani 0.68 merges a zero-initialised `static mut` with same-sized zero
+/// constants of the program (e.g. the capacity constant of `Vec::new()` / `String::new()`), so that
+/// writing the static corrupts those constants (observed: `String::new().capacity() == 100` after
+/// `NOW_S = 100`).  Every mutable ghost static therefore carries a unique non-zero tag, which makes
+/// its initialiser unlike any constant; the payload keeps its natural initial value.
+#[repr(C)]
+pub struct Ghost<T> {
+    pub tag: u64,
+    pub v: T,
+}
+pub const fn ghost<T>(id: u64, v: T) -> Ghost<T> {
+    Ghost { tag: 0x6A05_7C0D_E000_0000 | id, v }
 }
